@@ -59,25 +59,40 @@ Print Assumptions C02_optional_mark.
 Print Assumptions C02_property_key.
 
 (* ---- acceptance -------------------------------------------------------------------------------------
-   For every environment of derived definitions inside the decidable fragment (plain_envb of C01 — structs and enums of every
-   shape, generic or not, rename / rename_all / rename_all_fields / skip / struct-level tag, all four enum representations,
-   recursion — and de_envb: no `inline` fields, arrays of at most ARRAY_TUPLE_LIMIT elements so that the binding is the
-   tuple of exactly that length, variants of a tagged enum with distinct names on the wire), for EVERY closed type
-   expression over it, EVERY JSON value whose objects have distinct keys, and every evaluation depth f: a member of the
-   TypeScript type TS::name() reports, read against the declarations ts-rs generates, is NOT REJECTED by serde's
-   Deserialize (Spec/SerdeDe.v, tied to the real serde_json::from_str on every run) at any recursion depth >= f: it is
-   read as a value, or it is one of the leaf misfits the property sets aside (DMisfit: a number outside the Rust integer
-   type, a `char` string of another length). *)
+   For every environment of derived definitions inside the decidable fragment de_envb (Proofs/De_proofs.v: structs and enums
+   of every shape — named, tuple, newtype, unit — generic or not, rename / rename_all / rename_all_fields / skip,
+   struct-level tag, all four enum representations, recursion, `inline` fields, `optional` / `optional = nullable` on Option
+   fields and `optional_fields` on the container; no flatten / type / as overrides; arrays of at most ARRAY_TUPLE_LIMIT
+   elements, so that the binding is the tuple of exactly that length; a tag key is no field key; the variants of a tagged
+   enum have distinct names on the wire; every definition has a declaration and declaration names are distinct), for
+   EVERY closed type expression over it, EVERY JSON value whose objects have distinct keys, and every evaluation depth f:
+   a member of the TypeScript type TS::name() reports, read against the declarations ts-rs generates, is NOT REJECTED by
+   serde's Deserialize (Spec/SerdeDe.v, tied to the real serde_json::from_str on every run) at any recursion depth
+   >= F * (gf + 1), F >= f (one unit per definition entered; at most gf definitions are entered through `inline` between
+   two reference unfoldings of the membership): it is read as a value, or it is one of the leaf misfits the property sets
+   aside (DMisfit: a number outside the Rust integer type, a `char` string of another length).  In particular a property the
+   binding marks optional may be absent only where serde reads an absent field (an Option), and a required one is read. *)
 From TsRs Require Import Spec.TsSem Spec.Serde Spec.SerdeDe Proofs.Sem_base_proofs Proofs.Sem_derive_proofs Proofs.De_proofs Props.C01.
 
 Theorem C02_members_are_accepted :
   forall is_upper is_alnum is_numeric R gf,
-    plain_envb is_upper is_alnum is_numeric R gf = true -> de_envb is_upper R = true ->
+    de_envb is_upper is_alnum is_numeric R gf = true ->
     forall F n t a j f,
-      (F <= n)%nat -> (f <= F)%nat -> mono_ty R t = true -> small_arr t = true -> name_of R t = Ok a ->
+      (F * S gf <= n)%nat -> (f <= F)%nat -> mono_ty R t = true -> small_arr t = true -> name_of R t = Ok a ->
       memberb (env_of is_upper is_alnum is_numeric R gf) f a j = true -> wf_json j = true ->
       de is_upper R n t j <> DReject.
 Proof. exact member_accepted. Qed.
+
+(* the same for the type TS::inline() reports (at every generator fuel g at which inline() is defined) *)
+Theorem C02_members_of_inline_are_accepted :
+  forall is_upper is_alnum is_numeric R gf,
+    de_envb is_upper is_alnum is_numeric R gf = true ->
+    forall F g n t a j f,
+      (F * S gf + g <= n)%nat -> (f <= F)%nat -> mono_ty R t = true -> small_arr t = true ->
+      lib_inline R (gen is_upper is_alnum is_numeric R g) t = Ok a ->
+      memberb (env_of is_upper is_alnum is_numeric R gf) f a j = true -> wf_json j = true ->
+      de is_upper R n t j <> DReject.
+Proof. exact member_accepted_inline. Qed.
 
 (* ... and whatever value it is read as, what serde writes for it inhabits the type again (C01, for every value) *)
 Theorem C02_reserialized_inhabits :
@@ -95,19 +110,72 @@ Example C02_acceptance_nonvacuous :
   let R := C01_generic.R in
   let j := JObj [(lit "first", JInt 5); (lit "second", JArr [JObj [(lit "t", JStr (lit "Nothing"))];
                                                               JObj [(lit "t", JStr (lit "Just")); (lit "c", JStr (lit "x"))]])] in
-  plain_envb C01_example.up C01_example.al is_ascii_digit R 10 = true /\ de_envb C01_example.up R = true /\
+  de_envb C01_example.up C01_example.al is_ascii_digit R 10 = true /\
   mono_ty R C01_generic.t = true /\ small_arr C01_generic.t = true /\ wf_json j = true /\
   exists a, name_of R C01_generic.t = Ok a /\
     memberb (env_of C01_example.up C01_example.al is_ascii_digit R 10) 12 a j = true /\
-    de C01_example.up R 12 C01_generic.t j = DOk (VStruct [VInt 5; VSeq [VVariant 0 []; VVariant 1 [VStr (lit "x")]]]) /\
+    de C01_example.up R 132 C01_generic.t j = DOk (VStruct [VInt 5; VSeq [VVariant 0 []; VVariant 1 [VStr (lit "x")]]]) /\
     (* a near miss that is not a member, and is rejected: the content of `Just` is missing *)
     memberb (env_of C01_example.up C01_example.al is_ascii_digit R 10) 12 a
       (JObj [(lit "first", JInt 5); (lit "second", JArr [JObj [(lit "t", JStr (lit "Just"))]])]) = false.
 Proof.
   cbv zeta. split; [vm_compute; reflexivity|]. split; [vm_compute; reflexivity|]. split; [vm_compute; reflexivity|].
-  split; [vm_compute; reflexivity|]. split; [vm_compute; reflexivity|].
+  split; [vm_compute; reflexivity|].
   eexists. split; [vm_compute; reflexivity|]. split; [vm_compute; reflexivity|]. split; vm_compute; reflexivity.
 Qed.
 
+(* an `inline` field: Host { #[ts(inline)] s: Vec<Shape> } over the recursive Node / internally tagged Shape of C01_example *)
+Example C02_acceptance_inline_nonvacuous :
+  let R := C01_example.R in
+  let t := RNamed (lit "Host") [] in
+  let node i sh := JObj [(lit "nodeId", JInt i); (lit "kids", JArr []); (lit "shape", sh)] in
+  let j := JObj [(lit "s", JArr [JObj [(lit "kind", JStr (lit "Dot"))];
+                                JObj [(lit "kind", JStr (lit "Box")); (lit "w", JInt 7); (lit "inner", node 4%Z JNull)]])] in
+  de_envb C01_example.up C01_example.al is_ascii_digit R 10 = true /\
+  mono_ty R t = true /\ small_arr t = true /\ wf_json j = true /\
+  exists a, name_of R t = Ok a /\
+    memberb (env_of C01_example.up C01_example.al is_ascii_digit R 10) 12 a j = true /\
+    de C01_example.up R 132 t j = DOk (VStruct [VSeq [VVariant 0 []; VVariant 1 [VInt 7; C01_example.leafv 4 VNone]]]).
+Proof.
+  cbv zeta. split; [vm_compute; reflexivity|]. split; [vm_compute; reflexivity|]. split; [vm_compute; reflexivity|].
+  split; [vm_compute; reflexivity|].
+  eexists. split; [vm_compute; reflexivity|]. split; vm_compute; reflexivity.
+Qed.
+
+(* optional properties: #[ts(optional_fields)] struct Opt { a: Option<i32>, #[ts(optional = nullable)] b: Option<bool>, c: i32 }
+   — `{ a?: number, b?: boolean | null, c: number, }`: a and b may be absent, c may not *)
+Module C02_opt.
+Import C01_example.
+Definition fopt (n : String.string) (t : rty) (o : optional) : field :=
+  {| f_ident := lit n; f_ty := t; f_serde_ty := t; f_rename := None; f_skip := false; f_inline := false;
+     f_flatten := false; f_optional := o; f_type := None; f_docs := []; f_skip_none := true |}.
+Definition R : env :=
+  [(lit "Opt", DStruct {| c_ident := lit "Opt"; c_rename := None; c_rename_all := None; c_tag := None; c_optional_fields := Optional false;
+                          c_docs := []; c_export_to := None; c_type := None; c_as := None; c_params := [] |}
+      (SNamed [fopt "a" (ROption i32) NotOptional; fopt "b" (ROption (RLeaf LBool)) (Optional true); fopt "c" i32 NotOptional]))].
+Definition t : rty := RNamed (lit "Opt") [].
+End C02_opt.
+
+Example C02_acceptance_optional_nonvacuous :
+  let R := C02_opt.R in
+  let E := env_of C01_example.up C01_example.al is_ascii_digit R 10 in
+  de_envb C01_example.up C01_example.al is_ascii_digit R 10 = true /\
+  exists a d, name_of R C02_opt.t = Ok a /\ Rust.lookup R (lit "Opt") = Some d /\
+    decl_text C01_example.up C01_example.al is_ascii_digit R 10 d = Ok (lit "type Opt = { a?: number, b?: boolean | null, c: number, };") /\
+    memberb E 12 a (JObj [(lit "c", JInt 1)]) = true /\
+    de C01_example.up R 132 C02_opt.t (JObj [(lit "c", JInt 1)]) = DOk (VStruct [VNone; VNone; VInt 1]) /\
+    memberb E 12 a (JObj [(lit "a", JInt 2); (lit "b", JNull); (lit "c", JInt 1)]) = true /\
+    de C01_example.up R 132 C02_opt.t (JObj [(lit "a", JInt 2); (lit "b", JNull); (lit "c", JInt 1)]) = DOk (VStruct [VSome (VInt 2); VNone; VInt 1]) /\
+    (* the required property may not be absent: not a member, and rejected *)
+    memberb E 12 a (JObj [(lit "a", JInt 2)]) = false /\
+    de C01_example.up R 132 C02_opt.t (JObj [(lit "a", JInt 2)]) = DReject.
+Proof.
+  cbv zeta. split; [vm_compute; reflexivity|]. eexists; eexists.
+  split; [vm_compute; reflexivity|]. split; [vm_compute; reflexivity|]. split; [vm_compute; reflexivity|].
+  split; [vm_compute; reflexivity|]. split; [vm_compute; reflexivity|]. split; [vm_compute; reflexivity|].
+  split; [vm_compute; reflexivity|]. split; vm_compute; reflexivity.
+Qed.
+
 Print Assumptions C02_members_are_accepted.
+Print Assumptions C02_members_of_inline_are_accepted.
 Print Assumptions C02_reserialized_inhabits.
